@@ -39,7 +39,7 @@ ID = "C19"
 LEVEL = "exploration"
 RULE = (
     "Hypothesis-built (runtime module, stubs) pairs over 8 member names (functions with <=3 parameters, attributes, classes nested <=2, "
-    "aliases to an external or an internal module on either side, docstrings on either side, overload groups of 2-3 signatures in the "
+    "classes deriving from a sibling class whose stubs declare overloads/annotations for an inherited-only method, aliases to an external or an internal module on either side, docstrings on either side, overload groups of 2-3 signatures in the "
     "stubs with or without plain definition, kind mismatches), rendered into one of 5 placements (sibling .pyi, __init__.pyi of a "
     "sub-package, __init__.pyi of the top package, separate -stubs package, top-level module) and loaded in both discovery orders; the "
     "merged module is compared field by field with a reference merge table. non-trivial = >=2 names present on both sides with at "
@@ -74,6 +74,7 @@ CLAUSE_OF = {
     "parameter-default": "keeps-runtime",
     "value": "keeps-runtime",
     "alias-target": "keeps-runtime",
+    "bases": "keeps-runtime",
     "parameter-annotation": "stub-types",
     "return-annotation": "stub-types",
     "attribute-annotation": "stub-types",
